@@ -136,3 +136,5 @@ func short(s string, n int) string {
 func fmtf(format string, a ...interface{}) string { return fmt.Sprintf(format, a...) }
 
 func join(xs []string, sep string) string { return strings.Join(xs, sep) }
+
+func excInfo(err error) (string, []string, string, []harness.TB) { return harness.ExcInfo(err) }
